@@ -8,7 +8,7 @@
                    exist, so stating the two separately would make every theorem vacuous; see the instance in
                    Props/C12.v).  sha_no_nl: a hex digest contains no newline
      decU_encU / decD_encD / encU_nonempty   pickle is a self-delimiting codec with non-empty output
-   Hypotheses on the rest of lark, each one forced by the proof of history_inv (and each refuted on the
+   The hypotheses on the rest of lark, each one forced by the proof of history_inv (and each refuted on the
    implementation by a keyed exotic stream of harness/props/C12.py):
      okenv               the class of file-system states in which every import resolves to the path it resolved
                          to when the cache was written (a predicate on environments; histories stay inside it)
